@@ -18,9 +18,11 @@
     `chunked_iter`, `windowed_iter`, `split_iter`, `unique_iter`,
     `chain.from_iterable`) → a **pull transducer**: `StageSt.poll : state →
     emit x | pull | done | fail e` and `StageSt.feed` (the answer to a pull).
-    itertools' and boltons' functions are modelled from their documentation and
-    observed behaviour (`islice` mirrors CPython's `islice_next` counters `cnt`,
-    `next`); the correspondence validates them, nothing else does.
+    itertools' functions are modelled from their documentation and observed behaviour
+    (`islice` mirrors CPython's `islice_next` counters `cnt`, `next`); the correspondence
+    validates them, nothing else does.  boltons' four helpers are ALSO transcribed from their
+    source (`Model/C17Boltons.lean`) and proved to denote these transducers
+    (`Lemmas/C17Boltons.lean`).
   * the generator chain         → `pullFrom`: a demand on the outermost stage
     recursively demands from the stage below; the source carries the pull
     counter (its position).  Python's generator suspension is the recursion; an
@@ -29,7 +31,9 @@
   * `Iter.all()` = `Pipe(self, list)` → `drain`;  `Iter.first(key, default)` =
     `(self, First(key, default))` → `firstOf` (`next(filter(key, it), default)`).
 
-  Values: ints, `None`, lists and tuples (`V`).  `SKIP`/`STOP` are results of
+  Values (`V`): ints, `None`, lists, tuples, bools, (integral) floats, strings, instances of
+  user classes with their own `__eq__`, and object identity (`ref`): `is`, `==` and
+  equality-inside-sets are three different relations (`V.is`, `V.pyEqAtom`, `V.key`).  `SKIP`/`STOP` are results of
   the base subspec only (`Yield`); they are not stream elements (stated bound).
   User callables are arbitrary functions `V → Except Err V` in the model and
   in every theorem; the driver instantiates them from a finite catalogue.
@@ -44,6 +48,12 @@ inductive V where
   | int (i : Int)
   | list (xs : List V)
   | tup (xs : List V)
+  | bool (b : Bool)
+  | flt (i : Int)            -- the float `float(i)` (integral floats: the twins of ints and bools)
+  | str (s : String)
+  | obj (cls : Nat)          -- instance of a user class; 0: plain `object()`, 1: `__eq__` always True
+                             -- (like `mock.ANY`), 2: `__eq__` raises, 3: `__eq__` returns an object without a truth value
+  | ref (id : Nat) (v : V)   -- THE object number `id` (its value is `v`): two occurrences are the same Python object
   deriving Repr, Inhabited
 
 mutual
@@ -52,14 +62,26 @@ def V.beq : V → V → Bool
   | .int a, .int b => a == b
   | .list a, .list b => V.beqL a b
   | .tup a, .tup b => V.beqL a b
+  | .bool a, .bool b => a == b
+  | .flt a, .flt b => a == b
+  | .str a, .str b => a == b
+  | .obj a, .obj b => a == b
+  | .ref i a, .ref j b => i == j && V.beq a b
   | _, _ => false
 def V.beqL : List V → List V → Bool
   | [], [] => true
   | a :: as, b :: bs => V.beq a b && V.beqL as bs
   | _, _ => false
 end
-/-- Python `==` on these values (no bools / floats among them) -/
+/-- *the same observation* (structural, identities included) — NOT Python's `==`: that is
+    `V.pyEqAtom` (the `==` operator against an atom) and `V.key` (equality inside sets);
+    object identity (`is`) is `V.is` -/
 instance : BEq V := ⟨V.beq⟩
+
+/-- the value without its identity -/
+def V.strip : V → V
+  | .ref _ v => v.strip
+  | v => v
 
 /-- `bool(x)` -/
 def V.truthy : V → Bool
@@ -67,23 +89,92 @@ def V.truthy : V → Bool
   | .int i => i != 0
   | .list xs => !xs.isEmpty
   | .tup xs => !xs.isEmpty
+  | .bool b => b
+  | .flt i => i != 0
+  | .str s => !s.isEmpty
+  | .obj _ => true
+  | .ref _ v => v.truthy
 
 mutual
 /-- `hash(x)` does not raise -/
 def V.hashable : V → Bool
   | .list _ => false
   | .tup xs => V.hashableL xs
+  | .ref _ v => v.hashable
   | _ => true
 def V.hashableL : List V → Bool
   | [] => true
   | x :: xs => V.hashable x && V.hashableL xs
 end
 
-/-- `iter(x)`: lists and tuples are iterable, ints and None are not -/
+/-- `iter(x)`: lists, tuples and strings are iterable, numbers, None and plain objects are not -/
 def V.asIter : V → Option (List V)
   | .list xs => some xs
   | .tup xs => some xs
+  | .str s => some (s.toList.map fun c => .str (String.singleton c))
+  | .ref _ v => v.asIter
   | _ => Option.none
+
+/-- **`a is b`**.  Objects with an identity (`ref`) are identical iff they are the same
+    object.  Values written without an identity are *fresh* objects — a float computed at run
+    time, a string or tuple built at run time — identical to nothing else, except where
+    CPython keeps one object per value: `None`, `True`/`False`, the small ints, the empty
+    tuple, strings of at most one (latin-1) character. -/
+def V.is : V → V → Bool
+  | .ref i _, .ref j _ => i == j
+  | .none, .none => true
+  | .int a, .int b => a == b && decide (-5 ≤ a) && decide (a ≤ 256)
+  | .bool a, .bool b => a == b
+  | .str a, .str b => a == b && decide (a.length ≤ 1)
+  | .tup [], .tup [] => true
+  | _, _ => false
+
+/-- the number a value is in Python's numeric tower (`True == 1 == 1.0`) -/
+def V.num : V → Option Int
+  | .int i => some i
+  | .bool b => some (if b then 1 else 0)
+  | .flt i => some i
+  | _ => Option.none
+
+/-- atoms: what `split(sep=…)` takes as a single separator value -/
+def V.isAtom : V → Bool
+  | .none | .int _ | .bool _ | .flt _ | .str _ => true
+  | _ => false
+
+/-- `==` between two values without user-defined `__eq__`, the right one an atom -/
+def V.atomEq (x a : V) : Bool :=
+  match x.num, a.num with
+  | some m, some n => m == n
+  | _, _ =>
+    match x, a with
+    | .str s, .str t => s == t
+    | .none, .none => true
+    | _, _ => false
+
+/-- **`x == a`** used for its truth value (`if x == a`), `a` an atom: the class of `x` decides —
+    a permissive `__eq__` says yes to everything, one that raises (or returns something
+    without a truth value) makes the test raise; every other value compares by value,
+    numbers across `int` / `bool` / `float` -/
+def V.pyEqAtom (x a : V) : Except Err Bool :=
+  match x.strip with
+  | .obj 1 => .ok true
+  | .obj 2 => .error "ValueError"
+  | .obj 3 => .error "ValueError"
+  | y => .ok (y.atomEq a.strip)
+
+mutual
+/-- what a set / dict sees of a key (`hash` then `==`, identity first): numbers by their
+    value, tuples element-wise, instances of user classes (which hash by identity) as themselves -/
+def V.key : V → V
+  | .ref i v => (match v with | .obj c => .ref i (.obj c) | _ => v.key)
+  | .bool b => .int (if b then 1 else 0)
+  | .flt i => .int i
+  | .tup xs => .tup (V.keyL xs)
+  | v => v
+def V.keyL : List V → List V
+  | [] => []
+  | x :: xs => x.key :: V.keyL xs
+end
 
 /-- result of the base subspec of `Iter(subspec)` -/
 inductive Yield where
@@ -121,12 +212,14 @@ inductive Kind where
 /-- arguments the real code accepts and this model covers: `islice` rejects `step = 0`,
     `chunked_iter` rejects `size ≤ 0`, `windowed_iter` needs `size ≥ 1`, `maxsplit = 0`
     makes `split_iter` yield the *iterator object* (outside the value domain),
-    separator sets contain hashable values only -/
+    separator sets contain hashable values only, a single separator is an atom
+    (`None`, a number, a string) -/
 def Kind.wf : Kind → Bool
   | .slice _ _ step => step ≥ 1
   | .chunked size _ => size ≥ 1
   | .windowed size => size ≥ 1
-  | .split sep m => m != some 0 && (match sep with | .set vs => vs.all V.hashable | _ => true)
+  | .split sep m => m != some 0 &&
+    (match sep with | .set vs => vs.all V.hashable | .scalar v => v.isAtom | _ => true)
   | _ => true
 
 /-- dynamic state of a stage.  `buf`: the open chunk / the window / `cur_group` / the
@@ -150,12 +243,14 @@ def sliceStatus (stop : Option Nat) (cnt nxt : Nat) : Status :=
   | some s => if cnt ≥ nxt ∧ cnt ≥ s then .stop else .go
   | none => .go
 
-/-- `sep_func(x)`; a frozenset membership test hashes `x` first -/
+/-- `sep_func(x)`: `x == sep` is the item's own `==` (so `1.0`, `True` are separators when
+    `sep=1`, and an item with a permissive `__eq__` always is); a frozenset membership test
+    hashes `x` first and then compares as sets do -/
 def isSepE (sep : Sep) (x : V) : Except Err Bool :=
   match sep with
-  | .none => .ok (x == V.none)
-  | .scalar v => .ok (x == v)
-  | .set vs => if x.hashable then .ok (vs.contains x) else .error "TypeError"
+  | .none => x.pyEqAtom V.none
+  | .scalar v => x.pyEqAtom v
+  | .set vs => if x.hashable then .ok ((vs.map V.key).contains x.key) else .error "TypeError"
   | .fn f => (match f x with | .ok y => .ok y.truthy | .error e => .error e)
 
 def padTo (size : Nat) (fill : Option V) (c : List V) : List V :=
@@ -173,7 +268,7 @@ def Core.push (c : Core) (x : V) : List V × Core × Status :=
     | .ok .stop => ([], c, .stop)
     | .ok (.val v) =>
       match sentinel with
-      | some s => if v == s then ([], c, .stop) else ([v], c, .go)
+      | some s => if v.is s then ([], c, .stop) else ([v], c, .go)     -- `yld is self.sentinel`
       | none => ([v], c, .go)
   | .map f =>
     match f x with
@@ -227,8 +322,8 @@ def Core.push (c : Core) (x : V) : List V × Core × Status :=
     | .error e => ([], c, .fail e)
     | .ok k =>
       if !k.hashable then ([], c, .fail "TypeError")
-      else if c.buf.contains k then ([], c, .go)
-      else ([x], { c with buf := c.buf ++ [k] }, .go)
+      else if c.buf.contains k.key then ([], c, .go)                   -- `k not in seen`
+      else ([x], { c with buf := c.buf ++ [k.key] }, .go)
   | .flatten =>
     match x.asIter with
     | some ys => (ys, c, .go)
